@@ -1,6 +1,7 @@
 package main
 
 import (
+	crand_ "crypto/rand"
 	"fmt"
 	"strings"
 
@@ -10,6 +11,8 @@ import (
 
 	"verifharness/lib"
 )
+
+func crand(b []byte) { crand_.Read(b) }
 
 // ---- c11.const ----
 
@@ -207,6 +210,7 @@ func genFunctional(w *lib.Writer, r *lib.Rng, tier string) {
 		}
 		runReq(w, reqIn{pool: pool, c2s: r.Bytes(kl), hdr: hdr}, tags)
 	}
+	genStore(w, r.Fork(), tier)
 	// replies: complete sweep of the number of cookies at the issued length
 	for _, cl := range []int{120, 124, 128} {
 		for _, ul := range []int{32, 33, 36, 40, 64, 100, 156, 160, 161, 164} {
@@ -373,4 +377,146 @@ func genHistories(r *lib.Rng, tier string) (scripts [][]step) {
 		scripts = append(scripts, genScript(r, shape))
 	}
 	return scripts
+}
+
+// ---- c11.store: Fetcher.StoreCookie (read back through the verif hook) ----
+
+func runStore(w *lib.Writer, cookies [][]byte, tags string) {
+	var f ntske.Fetcher
+	for _, c := range cookies {
+		f.StoreCookie(c)
+	}
+	w.Case("c11.store", tags, bl(cookies), bl(f.VerifData().Cookie))
+}
+
+func genStore(w *lib.Writer, r *lib.Rng, tier string) {
+	n := 300
+	if tier == "thorough" {
+		n = 3000
+	}
+	for i := 0; i < n; i++ {
+		cs := make([][]byte, r.Intn(10))
+		long := false
+		for j := range cs {
+			l := 124
+			switch r.Intn(4) {
+			case 0:
+				l = lib.Pick(r, 0, 1, 895, 896, 897, 900, 928, 929, 1000, 2000)
+			case 1:
+				l = int(r.Range(880, 910))
+			}
+			long = long || l > 896
+			cs[j] = r.Bytes(l)
+		}
+		tags := "store"
+		if long {
+			tags += ",nt,too-long"
+		}
+		runStore(w, cs, tags)
+	}
+}
+
+// ---- c11.srv: authenticated requests of any shape sent to the real listener ----
+
+// args: [nCookieFields nPlaceholders placeholderLen uidLen]
+func (e *env) runSrv(args string) (tags, a, outs string) {
+	t := strings.Fields(strings.NewReplacer("[", " ", "]", " ").Replace(args))
+	nc, np, pl, ul := int(lib.ParseI(t[0])), int(lib.ParseI(t[1])), int(lib.ParseI(t[2])), int(lib.ParseI(t[3]))
+	c2s, s2c := make([]byte, 32), make([]byte, 32)
+	uid := make([]byte, ul)
+	crand(c2s)
+	crand(s2c)
+	crand(uid)
+	// cookies made the way the NTS-KE server makes them
+	sc := ntske.ServerCookie{Algo: ntske.AES_SIV_CMAC_256, S2C: s2c, C2S: c2s}
+	key := e.provider.Current()
+	var pkt nts.Packet
+	pkt.UniqueID.ID = uid
+	for i := 0; i < nc; i++ {
+		ec, err := sc.EncryptWithNonce(key.Value, key.ID)
+		if err != nil {
+			fatal("EncryptWithNonce: %v", err)
+		}
+		pkt.Cookies = append(pkt.Cookies, nts.Cookie{Cookie: ec.Encode()})
+	}
+	for i := 0; i < np; i++ {
+		pkt.CookiePlaceholders = append(pkt.CookiePlaceholders, nts.CookiePlaceholder{Cookie: make([]byte, pl)})
+	}
+	pkt.Auth.Key = c2s
+	req := make([]byte, ntp.PacketLen)
+	req[0] = 4<<3 | 3
+	crand(req[40:48])
+	encoded := false
+	func() {
+		defer func() { recover() }()
+		nts.EncodePacket(&req, &pkt)
+		encoded = true
+	}()
+	tags = "srv"
+	a = args
+	if !encoded || len(req) > nts.MaxPacketLen {
+		return tags + ",unencodable", a, lib.L(lib.I(0))
+	}
+	var o stepObs
+	o.req = req
+	o.replies = e.toServer(req)
+	if len(o.replies) > 0 {
+		r := o.replies[0]
+		if pos, nonce, ct, ok := authParts(r); ok {
+			o.repNonce = nonce
+			if p, ok := sivOpen(s2c, nonce, ct, r[:pos]); ok {
+				o.repAuthOK = true
+				o.repPlain = p
+				o.repCT = sivSeal(s2c, nonce, p, r[:pos])
+				for q := 0; q+4 <= len(p); {
+					l := int(p[q+2])<<8 | int(p[q+3])
+					if l < 4 || q+l > len(p) {
+						break
+					}
+					if p[q] == 0x02 && p[q+1] == 0x04 {
+						f, _ := e.cookieFacts(p[q+4 : q+l])
+						o.repCookies = append(o.repCookies, f)
+					}
+					q += l
+				}
+			}
+		}
+	}
+	rep := lib.B(nil)
+	if len(o.replies) > 0 {
+		rep = lib.B(o.replies[0])
+	}
+	if nc+np > 7 {
+		tags += ",nt,more-than-fit"
+	} else if nc+np > 1 {
+		tags += ",nt"
+	}
+	return tags, a, lib.L(lib.I(1), lib.B(req), lib.I(int64(len(o.replies))), rep, lib.B(o.repNonce), lib.B(o.repCT),
+		lib.Bool(o.repAuthOK), lib.B(o.repPlain), lib.L(o.repCookies...), lib.B(c2s), lib.B(s2c))
+}
+
+func genSrv(r *lib.Rng, tier string) (js []job) {
+	n := 300
+	if tier == "thorough" {
+		n = 3000
+	}
+	add := func(nc, np, pl, ul int) {
+		js = append(js, job{"c11.srv", lib.L(lib.I(int64(nc)), lib.I(int64(np)), lib.I(int64(pl)), lib.I(int64(ul)))})
+	}
+	// what this project's client sends, and more placeholders than fit (short ones)
+	for np := 0; np <= 12; np++ {
+		add(1, np, 124, 32)
+		add(1, np, 0, 32)
+	}
+	for i := 0; i < n; i++ {
+		nc := lib.Pick(r, 1, 1, 1, 1, 2, 3)
+		np := int(r.Range(0, 9))
+		if r.Intn(5) == 0 {
+			np = int(r.Range(0, 40))
+		}
+		pl := lib.Pick(r, 0, 0, 4, 16, 124, 124, 124, 128)
+		ul := lib.Pick(r, 32, 32, 32, 33, 36, 64, 100, 160, 164)
+		add(nc, np, pl, ul)
+	}
+	return js
 }
